@@ -514,12 +514,16 @@ def build_and_run(chk, name, src, stdin, tool, modname="main"):
 
 
 # ----------------------------------------------------------------------------- known deviation classes
-# A class folds the instances of ONE known defect onto its representative key (the key listed in known-findings.txt).
-# The representative is a fixed term judged in the "fixed" program of every run.  Only while the representative itself
-# fails is the class active.  A line class folds an observed line only when it equals the expected line rewritten by
-# the class's exact transformation; a term class keeps seeded generation away from the terms it describes (they would
-# all fail the same way) and folds the representative term's other lines.  When a defect is fixed the representative
-# passes, nothing is folded or avoided, and every instance is judged strictly.
+# A class folds the instances of ONE defect onto its representative key (the key to list in known-findings.txt).
+# The representative is a fixed term (ReflectCases!Fixed) present in every run, whatever the seed.
+#  * line class: active only while its representative fails in this run; an observed line is folded only when it
+#    equals the expected line rewritten by the class's exact transformation (anything else is a violation).
+#  * term class: all queries of such terms fail alike.  While the representative is listed in known-findings.txt the
+#    seeded terms of the class are kept out of the generated programs and the representative is judged in the small
+#    "probe" program; when it is not listed the terms are generated and judged like any other.
+#  * the compiler-crash gate works like a term class (representative judged in the "gate" program).
+# When a defect is fixed the representative passes, nothing is folded, and - once the known-findings line is turned
+# into a fixed: line - every instance is generated and judged strictly.
 
 def split_typeargs(s):
     """[(inside_brackets_of_a_generic_instance, text)]"""
@@ -827,6 +831,23 @@ def need_ref(r, what):
     return r
 
 
+def negative_control(prog, v, run, agreed):
+    """one corrupted expectation must be flagged by the very comparison that judges the run"""
+    neg_id = next((i for i in sorted(agreed) if i.endswith(".str") and run["lines"].get(i) == prog.expected[i]), None)
+    if neg_id is None:
+        return False
+    saved = prog.expected[neg_id]
+    prog.expected[neg_id] = saved + " "
+    nf = []
+    try:
+        compare(prog, "neg", v, {"lines": {neg_id: run["lines"][neg_id]}}, {neg_id}, {"evaluations": 0}, nf)
+    finally:
+        prog.expected[neg_id] = saved
+    if len(nf) != 1 or nf[0]["id"] != neg_id:
+        raise C.Undecided("negative control not flagged: the comparison does not compare anything")
+    return True
+
+
 def judge_llgo_run(chk, prog, name, v, run, agreed, stats, findings):
     if not run["ok"]:
         m = re.search(r"panic: [^\n]*", run["build_out"])
@@ -972,18 +993,8 @@ def check(chk):
             run = fut.result()
             all_variants.add(v)
             okrun = judge_llgo_run(chk, prog, "bulk" if ci == 0 else "bulk%d" % ci, v, run, agreed, stats, findings)
-            # negative control: one corrupted expectation must be flagged by the same comparison
             if okrun and not neg_done:
-                neg_id = next((i for i in sorted(agreed) if i.endswith(".str") and run["lines"].get(i) == prog.expected[i]), None)
-                if neg_id:
-                    saved = prog.expected[neg_id]
-                    prog.expected[neg_id] = saved + " "
-                    nf = []
-                    compare(prog, "neg", v, {"lines": {neg_id: run["lines"][neg_id]}}, {neg_id}, {"evaluations": 0}, nf)
-                    prog.expected[neg_id] = saved
-                    if len(nf) != 1:
-                        raise C.Undecided("negative control not flagged: the comparison does not compare anything")
-                    neg_done = True
+                neg_done = negative_control(prog, v, run, agreed)
         judge.activate(findings)
         judge.report(findings, prog)
     # 4. the small programs
@@ -1004,7 +1015,8 @@ def check(chk):
                        ([c["key"] for c in gate_cases], m.group(0) if m else run["build_out"][-300:]),
                        {"terms": [c["key"] for c in gate_cases], "source": p.source(var, tables=False), "build_output": run["build_out"][-4000:]})
             continue
-        judge_llgo_run(chk, p, nm, var, run, agreed, stats, f)
+        if judge_llgo_run(chk, p, nm, var, run, agreed, stats, f) and not neg_done:
+            neg_done = negative_control(p, var, run, agreed)
         if nm == "modpath":
             # one representative; the other lines are folded when they differ exactly by vmod for main
             keep = []
